@@ -1,12 +1,316 @@
 /-
-  Model of the chol solver (history-free answers).  STUB: to be replaced by the real model.
+  Model of `GNU_gama::AdjCholDec` (lib/gnu_gama/adj/adj_chol.h): history-free answers of a
+  fresh object.  Dense functional restatement of `solve()` and of the queries, same order of
+  decisions.  Core Lean only; indices are 0-based inside (`perm k` = original index of the
+  unknown at position `k`).
+
+  solve():
+    * normal equations `mat = AᵀA` (SymMat: one stored triangle), `rhs = Aᵀb`;
+    * for column = 1..N: pivot = largest diagonal among positions ≥ column (strict `>`: the first
+      of equal candidates wins), swap in `perm`; `pivot ≤ s_tol` → zero the trailing block,
+      `nullity = N - column + 1`, stop; else Schur update `S -= v vᵀ/pivot`, column `/= pivot`
+      (an LDLᵀ factorisation: no square root);
+    * `N0 = N - nullity`; x0: forward substitution, division by the pivots, backward
+      substitution over the positions `1..N0`, in place, indexed through `perm`;
+    * `r = A x0 - b` over the independent columns;
+    * `Q0`: the recursion `Z = D⁻¹L⁻¹ + (I - Lᵀ)Z` over positions `N0..1`;
+    * nullity ≠ 0: `G = [L11⁻ᵀ L21ᵀ; -I | x0]`, pivoted (modified) Gram–Schmidt over the rows in
+      the regularisation list, `pivot < s_tol` (tested on the candidate in place *before* the
+      pivot search) → `BadRegularization`; x = last column.
+  queries: `q_xx = T Q0 Tᵀ` (`Q0` when nullity = 0), `q_bb = A Q0 Aᵀ`, `q_bx = A Q0 Tᵀ`,
+  `lindep(n) = nullity ≠ 0 ∧ invp(n) > N0`, `q0_xx = q_xx` (AdjBase default), `cond = 0`.
+
+  Not modelled (C++ has undefined behaviour there): indices outside `1..N` in a query or in the
+  regularisation list (`NotModelled`).  `minx_n` is not initialised by `init()`; with nothing
+  configured the C++ reads it in `minx_t == ALL && minx_n != N` — the model takes the branch
+  (a list `1..N` is installed), which is what happens unless the garbage equals `N`.
 -/
 import Gama.Model.Ls.Common
 namespace Gama.Ls
+open Gama
+
+/-! ### small dense vocabulary (arrays built by `ofFn`, read by `getD`) -/
+namespace Dn
 variable {K : Type} [Scalar K]
 
-/-- answers of a fresh solver object of this algorithm on problem `p` (solver-level entry:
-    sparse solvers take (A, b, C); full solvers take dense A, b with unit covariance) -/
-def cholSolve : Solver K := fun _ => .error .NotModelled
+def mget (M : DMat K) (i j : Nat) : K := (M.getD i #[]).getD j 0
+def mmk (r c : Nat) (f : Nat → Nat → K) : DMat K :=
+  Array.ofFn (n := r) fun i => Array.ofFn (n := c) fun j => f i.val j.val
+def vget (v : Array K) (i : Nat) : K := v.getD i 0
+def vmk (n : Nat) (f : Nat → K) : Array K := Array.ofFn (n := n) fun i => f i.val
+def pget (p : Array Nat) (k : Nat) : Nat := p.getD k 0
+def pmk (n : Nat) (f : Nat → Nat) : Array Nat := Array.ofFn (n := n) fun i => f i.val
+
+/-- `s = 0; for k = lo..hi-1: s += f k` -/
+def sumFrom (lo hi : Nat) (f : Nat → K) : K := (List.range' lo (hi - lo)).foldl (fun s k => s + f k) 0
+/-- `for k = lo..hi-1: s -= f k` -/
+def subFrom (init : K) (lo hi : Nat) (f : Nat → K) : K :=
+  (List.range' lo (hi - lo)).foldl (fun s k => s - f k) init
+/-- `for k = lo..hi-1: s += f k` -/
+def addFrom (init : K) (lo hi : Nat) (f : Nat → K) : K :=
+  (List.range' lo (hi - lo)).foldl (fun s k => s + f k) init
+
+/-- `SymMat::operator()(u,v)`: one triangle is stored (`v ≤ u`) -/
+def sget (a : DMat K) (u v : Nat) : K := if v ≤ u then mget a u v else mget a v u
+/-- `SymMat(u,v) = x` -/
+def sset (a : DMat K) (u v : Nat) (x : K) : DMat K :=
+  let (i, j) := if v ≤ u then (u, v) else (v, u)
+  a.setIfInBounds i ((a.getD i #[]).setIfInBounds j x)
+
+end Dn
+
+namespace Chol
+open Dn
+variable {K : Type} [Scalar K]
+
+/-- `sqrt(std::numeric_limits<double>::epsilon())` = 2⁻²⁶ (exact at `Float` and at `Rat`) -/
+def sTol : K := Scalar.ofNat 1 / Scalar.ofNat 67108864
+
+/-- `mat(i,j) = Σ_k A(k,i)·A(k,j)` -/
+def normalMat (m n : Nat) (A : DMat K) : DMat K :=
+  mmk n n fun u v => if v ≤ u then sumFrom 0 m (fun k => mget A k v * mget A k u) else 0
+/-- `rhs(i) = Σ_k A(k,i)·b(k)` -/
+def normalRhs (m n : Nat) (A : DMat K) (b : Array K) : Array K :=
+  vmk n fun i => sumFrom 0 m (fun k => mget A k i * vget b k)
+
+structure Fact (K : Type) where
+  perm : Array Nat
+  mat : DMat K
+  nullity : Nat
+
+def diagAt (a : DMat K) (perm : Array Nat) (i : Nat) : K := mget a (pget perm i) (pget perm i)
+
+/-- `pivot = mat(perm(column),perm(column)); ipvt = 0; for i > column: if (t > pivot) {pivot = t; ipvt = i;}` -/
+def pivotSearch (n : Nat) (a : DMat K) (perm : Array Nat) (c : Nat) : K × Option Nat :=
+  (List.range' (c + 1) (n - (c + 1))).foldl
+    (fun (st : K × Option Nat) i => let t := diagAt a perm i; if st.1 < t then (t, some i) else st)
+    (diagAt a perm c, none)
+
+/-- `std::swap(perm(c), perm(i))` -/
+def swapP (n : Nat) (perm : Array Nat) (c i : Nat) : Array Nat :=
+  pmk n fun k => if k = c then pget perm i else if k = i then pget perm c else pget perm k
+
+/-- position of the original index `u` in `perm` (`n` if absent) -/
+def posOf (n : Nat) (perm : Array Nat) (u : Nat) : Nat :=
+  ((List.range n).find? (fun k => pget perm k == u)).getD n
+
+/-- `invp(perm(i)) = i` -/
+def invPerm (n : Nat) (perm : Array Nat) : Array Nat := pmk n fun u => posOf n perm u
+
+/-- Schur update + scaling of the pivot column, at the stored positions `v ≤ u`:
+    `t = mat(pj,pc)/pivot; mat(pi,pj) -= t*mat(pi,pc)` (position j ≤ position i), then
+    `mat(pi,pc) /= pivot` -/
+def elim (n : Nat) (perm : Array Nat) (c : Nat) (pivot : K) (a : DMat K) : DMat K :=
+  let pc := pget perm c
+  let invp := invPerm n perm
+  mmk n n fun u v =>
+    if v ≤ u then
+      let qu := pget invp u
+      let qv := pget invp v
+      if c < qu ∧ c < qv then
+        let hi := if qv ≤ qu then u else v
+        let lo := if qv ≤ qu then v else u
+        sget a u v - (sget a lo pc / pivot) * sget a hi pc
+      else if v = pc ∧ c < qu then sget a u pc / pivot
+      else if u = pc ∧ c < qv then sget a v pc / pivot
+      else mget a u v
+    else 0
+
+/-- "remove junk": `mat(perm(j),perm(i)) = 0` for positions `i, j ≥ column` -/
+def junk (n : Nat) (perm : Array Nat) (c : Nat) (a : DMat K) : DMat K :=
+  let invp := invPerm n perm
+  mmk n n fun u v =>
+    if v ≤ u then (if c ≤ pget invp u ∧ c ≤ pget invp v then 0 else mget a u v) else 0
+
+/-- the column loop (`fuel = N - column`, `c` = 0-based column) -/
+def factor (n : Nat) : Nat → Nat → Array Nat → DMat K → Fact K
+  | 0, _, perm, a => ⟨perm, a, 0⟩
+  | fuel + 1, c, perm, a =>
+    let ps := pivotSearch n a perm c
+    let perm' := match ps.2 with
+      | some i => swapP n perm c i
+      | none => perm
+    if ps.1 ≤ (sTol : K) then ⟨perm', junk n perm' c a, n - c⟩
+    else factor n fuel (c + 1) perm' (elim n perm' c ps.1 a)
+
+/-- forward substitution: `for ii = 2..N0: for jj < ii: x0(p ii) -= mat(p ii, p jj)·x0(p jj)` -/
+def fwdSub (N0 : Nat) (perm : Array Nat) (a : DMat K) (x : Array K) : Array K :=
+  (List.range' 1 (N0 - 1)).foldl (fun (x : Array K) ii =>
+      let i := pget perm ii
+      x.setIfInBounds i (subFrom (vget x i) 0 ii fun jj => sget a i (pget perm jj) * vget x (pget perm jj))) x
+
+/-- `for ii = 1..N0: x0(p ii) /= mat(p ii, p ii)` -/
+def diagDiv (N0 : Nat) (perm : Array Nat) (a : DMat K) (x : Array K) : Array K :=
+  (List.range N0).foldl (fun (x : Array K) ii =>
+      let i := pget perm ii
+      x.setIfInBounds i (vget x i / mget a i i)) x
+
+/-- backward substitution: `for ii = N0-1..1: for jj = ii+1..N0: x0(p ii) -= mat(p ii, p jj)·x0(p jj)` -/
+def backSub (N0 : Nat) (perm : Array Nat) (a : DMat K) (x : Array K) : Array K :=
+  (List.range (N0 - 1)).reverse.foldl (fun (x : Array K) ii =>
+      let i := pget perm ii
+      x.setIfInBounds i (subFrom (vget x i) (ii + 1) N0 fun jj => sget a i (pget perm jj) * vget x (pget perm jj))) x
+
+/-- `x0 = rhs; x0(perm(i)) = 0 for i > N0;` then the three sweeps -/
+def solveX0 (n N0 : Nat) (perm : Array Nat) (a : DMat K) (rhs : Array K) : Array K :=
+  let invp := invPerm n perm
+  let x0 := vmk n fun u => if N0 ≤ pget invp u then 0 else vget rhs u
+  backSub N0 perm a (diagDiv N0 perm a (fwdSub N0 perm a x0))
+
+/-- `r(i) = -b(i); for jj = 1..N0: r(i) += A(i,p jj)·x0(p jj)` -/
+def residuals (m N0 : Nat) (perm : Array Nat) (A : DMat K) (b x0 : Array K) : Array K :=
+  vmk m fun i => addFrom (- vget b i) 0 N0 fun jj => mget A i (pget perm jj) * vget x0 (pget perm jj)
+
+/-- one column of the `Q0` recursion (`column` 0-based, `j = perm(column)`) -/
+def q0Column (N0 : Nat) (perm : Array Nat) (a : DMat K) (Q : DMat K) (column : Nat) : DMat K :=
+  let j := pget perm column
+  let zii := subFrom (Scalar.ofNat 1 / mget a j j) (column + 1) N0
+    fun kk => sget a j (pget perm kk) * sget Q (pget perm kk) j
+  let Q1 := sset Q j j zii
+  (List.range column).reverse.foldl (fun (Q : DMat K) row =>
+      let i := pget perm row
+      let zij := subFrom (0 : K) (row + 1) N0 fun kk => sget a i (pget perm kk) * sget Q (pget perm kk) j
+      sset Q i j zij) Q1
+
+/-- `Q0.set_zero(); for column = N0..1 …` -/
+def q0Mat (n N0 : Nat) (perm : Array Nat) (a : DMat K) : DMat K :=
+  (List.range N0).reverse.foldl (q0Column N0 perm a) (mmk n n fun _ _ => 0)
+
+/-! ### singular part: `G`, Gram–Schmidt over the regularisation list -/
+
+/-- `dot(G,i,j) = Σ_{r ∈ minx} G(r,i)·G(r,j)` (list order; 0-based rows) -/
+def dotS (S : List Nat) (g h : Array K) : K := S.foldl (fun s r => s + vget g r * vget h r) 0
+
+/-- columns `1..nullity` of `G` before the orthogonalisation, and `x0` as the last one.
+    Column `j`: `G(perm(i),j) = mat(perm(i),perm(N0+j))` for `i ≤ N0`, backward substitution,
+    then `-1` at `perm(N0+j)` and `0` at the other dependent rows. -/
+def gInit (n N0 nullity : Nat) (perm : Array Nat) (a : DMat K) (x0 : Array K) : Array (Array K) :=
+  let invp := invPerm n perm
+  (Array.ofFn (n := nullity) fun j =>
+      let top := vmk n fun u => if pget invp u < N0 then sget a u (pget perm (N0 + j.val)) else 0
+      let sol := backSub N0 perm a top
+      vmk n fun u =>
+        if pget invp u < N0 then vget sol u
+        else if pget invp u = N0 + j.val then - (Scalar.ofNat 1 : K) else 0).push x0
+
+/-- pivot search of the Gram–Schmidt loop over `g_perm(column+1..nullity)` -/
+def gsSearch (S : List Nat) (G : Array (Array K)) (gperm : Array Nat) (nullity column : Nat) (p0 : K) : K × Option Nat :=
+  (List.range' (column + 1) (nullity - (column + 1))).foldl
+    (fun (st : K × Option Nat) i =>
+      let c := pget gperm i
+      let t := dotS S (G.getD c #[]) (G.getD c #[])
+      if st.1 < t then (t, some i) else st)
+    (p0, none)
+
+/-- the Gram–Schmidt loop (`fuel = nullity - column`) -/
+def gsLoop (n nullity : Nat) (S : List Nat) : Nat → Nat → Array Nat → Array (Array K) → Except ErrKind (Array (Array K))
+  | 0, _, _, G => .ok G
+  | fuel + 1, column, gperm, G =>
+    let c0 := pget gperm column
+    let p0 := dotS S (G.getD c0 #[]) (G.getD c0 #[])
+    if p0 < (sTol : K) then .error .BadRegularization else
+    let ps := gsSearch S G gperm nullity column p0
+    let gperm' := match ps.2 with
+      | some i => swapP (nullity + 1) gperm column i
+      | none => gperm
+    let pc := pget gperm' column
+    let pivot := Scalar.sqrt ps.1
+    let gpc := vmk n fun i => vget (G.getD pc #[]) i / pivot
+    let G1 := G.setIfInBounds pc gpc
+    let G2 := (List.range' (column + 1) (nullity + 1 - (column + 1))).foldl
+      (fun (G : Array (Array K)) col =>
+        let c := pget gperm' col
+        let gc := G.getD c #[]
+        let dp := dotS S gpc gc
+        G.setIfInBounds c (vmk n fun i => vget gc i - dp * vget gpc i)) G1
+    gsLoop n nullity S fuel (column + 1) gperm' G2
+
+/-- `T(i,j) = δ_ij - [j ∈ minx] Σ_c G(i,c)·G(j,c)` -/
+def tEntry (S : List Nat) (G : Array (Array K)) (nullity : Nat) (i j : Nat) : K :=
+  let t : K := if i = j then Scalar.ofNat 1 else 0
+  if S.contains j then subFrom t 0 nullity fun c => vget (G.getD c #[]) i * vget (G.getD c #[]) j else t
+
+/-- the regularisation list the solver uses (0-based), `none` if an index is outside `1..n` -/
+def regList (n : Nat) : Reg → Option (List Nat)
+  | .none => some (List.range n)
+  | .all => some (List.range n)
+  | .subset l => if l.all (fun i => decide (1 ≤ i ∧ i ≤ n)) then some (l.map (· - 1)) else none
+
+/-- everything `solve()` leaves in the object -/
+structure Solved (K : Type) where
+  m : Nat
+  n : Nat
+  A : DMat K
+  perm : Array Nat
+  invp : Array Nat
+  mat : DMat K
+  nullity : Nat
+  N0 : Nat
+  x0 : Array K
+  Q0 : DMat K
+  r : Array K
+  S : List Nat
+  G : Array (Array K)
+  x : Array K
+
+def solve (p : Problem K) : Except ErrKind (Solved K) :=
+  let m := p.m
+  let n := p.n
+  let A := p.dense
+  let b := p.rhs
+  match regList n p.reg with
+  | none => .error .NotModelled
+  | some S =>
+  let f := factor n n 0 (pmk n id) (normalMat m n A)
+  let N0 := n - f.nullity
+  let x0 := solveX0 n N0 f.perm f.mat (normalRhs m n A b)
+  let r := residuals m N0 f.perm A b x0
+  let Q0 := q0Mat n N0 f.perm f.mat
+  let invp := invPerm n f.perm
+  if f.nullity = 0 then
+    .ok ⟨m, n, A, f.perm, invp, f.mat, 0, N0, x0, Q0, r, S, #[], x0⟩
+  else
+    let G0 := gInit n N0 f.nullity f.perm f.mat x0
+    match gsLoop n f.nullity S f.nullity 0 (pmk (f.nullity + 1) id) G0 with
+    | .error e => .error e
+    | .ok G => .ok ⟨m, n, A, f.perm, invp, f.mat, f.nullity, N0, x0, Q0, r, S, G, G.getD f.nullity #[]⟩
+
+def Solved.idx (s : Solved K) (i : Nat) : Bool := decide (1 ≤ i ∧ i ≤ s.n)
+def Solved.obs (s : Solved K) (i : Nat) : Bool := decide (1 ≤ i ∧ i ≤ s.m)
+
+/-- `q_xx(i,j)`, 0-based -/
+def Solved.qxx0 (s : Solved K) (i j : Nat) : K :=
+  if s.nullity = 0 then sget s.Q0 i j else
+  sumFrom 0 s.n fun k =>
+    sumFrom 0 s.n (fun l => tEntry s.S s.G s.nullity i l * sget s.Q0 l k) * tEntry s.S s.G s.nullity j k
+
+/-- `aq(k) = Σ_l A(i,l)·Q0(l,k)` -/
+def Solved.aq (s : Solved K) (i k : Nat) : K := sumFrom 0 s.n fun l => mget s.A i l * sget s.Q0 l k
+
+def Solved.qbb0 (s : Solved K) (i j : Nat) : K := sumFrom 0 s.n fun c => s.aq i c * mget s.A j c
+
+def Solved.qbx0 (s : Solved K) (i j : Nat) : K :=
+  if s.nullity = 0 then sumFrom 0 s.n fun k => mget s.A i k * sget s.Q0 k j
+  else sumFrom 0 s.n fun k => s.aq i k * tEntry s.S s.G s.nullity j k
+
+def Solved.lindep0 (s : Solved K) (i : Nat) : Bool := s.nullity != 0 && decide (s.N0 ≤ pget s.invp i)
+
+def Solved.answer (s : Solved K) : Answer K :=
+  let q := fun i j => if s.idx i && s.idx j then Except.ok (s.qxx0 (i - 1) (j - 1)) else .error .NotModelled
+  { x := s.x
+    r := s.r
+    rtr := sumFrom 0 s.m fun i => vget s.r i * vget s.r i
+    defect := s.nullity
+    qxx := q
+    q0xx := q
+    qbb := fun i j => if s.obs i && s.obs j then .ok (s.qbb0 (i - 1) (j - 1)) else .error .NotModelled
+    qbx := fun i j => if s.obs i && s.idx j then .ok (s.qbx0 (i - 1) (j - 1)) else .error .NotModelled
+    lindep := fun i => if s.idx i then .ok (s.lindep0 (i - 1)) else .error .NotModelled
+    cond := .ok 0 }
+
+end Chol
+
+/-- answers of a fresh `AdjCholDec` object on problem `p` (dense `A`, `b`, unit covariance) -/
+def cholSolve {K : Type} [Scalar K] : Solver K := fun p => (Chol.solve p).map Chol.Solved.answer
 
 end Gama.Ls
